@@ -53,8 +53,9 @@ func init() {
 		fs := flag.NewFlagSet("ge-exec", flag.ExitOnError)
 		in := fs.String("in", "", "histories ndjson")
 		out := fs.String("out", "", "trace ndjson")
+		stride := fs.Int("stride", 1, "save/reload/evaluate only after every stride-th step (and the last)")
 		_ = fs.Parse(args)
-		return graphfam.RunGraphEdit(*in, *out)
+		return graphfam.RunGraphEdit(*in, *out, *stride)
 	}
 	commands["ge-random"] = func(args []string) error {
 		fs := flag.NewFlagSet("ge-random", flag.ExitOnError)
